@@ -273,9 +273,20 @@ class GenerateWasmVisitor(Visitor.DefaultVisitor):
 
         ctx.SetReferenceToLocalMap(valueReferenceToLocalMap)
 
+        lastInstruction = None
         for basicBlock in function.BasicBlocks:
             for instruction in basicBlock.Instructions:
                 self.v_Visit(instruction, ctx)
+                lastInstruction = instruction
+
+        if functionType.Results and (
+            lastInstruction is None
+            or lastInstruction.OpCode != LinearIR.OpCode.RETURN
+        ):
+            raise RuntimeError(
+                "Unsupported for WebAssembly: function can end without "
+                "returning a value"
+            )
 
         ctx.OnLeaveFunction()
 
